@@ -19,7 +19,13 @@
 #define VF_DUMMY_INIT = 0
 #define VF_CHECK_WRITE_SRC(p, n) ((void)0)
 #define VF_CHECK_READ_DST(p, n) ((void)0)
+#define VF_CHECK_DELETE(p, k) ((void)0)
 #else
+#ifdef VF_TRACK_ALLOC
+#define VF_CHECK_DELETE(p, k) __CPROVER_assert((p) == 0 || (const void *)(p) != vf_trk_ptr || vf_trk_kind == (k), "delete / delete[] matches the new / new[] that allocated the memory")
+#else
+#define VF_CHECK_DELETE(p, k) ((void)0)
+#endif
 #define VF_CHECK_WRITE_SRC(p, n) __CPROVER_assert((n) <= 0 || __CPROVER_r_ok((p), (size_t)(n)), "ostream::write source: n bytes readable inside one object")
 #define VF_CHECK_READ_DST(p, n) __CPROVER_assert((n) <= 0 || __CPROVER_w_ok((p), (size_t)(n)), "istream::read destination: n bytes writable inside one object")
 #define VF_DUMMY_INIT /* value returned while an exception propagates: never read, left nondeterministic */
@@ -106,6 +112,7 @@ void vf_stream_ctor(vf_stream *f);                                     /* fstrea
 void vf_stream_ctor_open(vf_stream *f, const vf_string *path, int mode); /* fstream(path, mode) */
 _Bool vf_stream_is_open(const vf_stream *f);
 _Bool vf_stream_eof(const vf_stream *f);
+_Bool vf_stream_fail(const vf_stream *f);                              /* ios::fail: failbit | badbit */
 void vf_stream_read(vf_stream *f, char *dst, long n);                  /* istream::read */
 void vf_stream_write(vf_stream *f, const char *src, long n);           /* ostream::write */
 vf_spos vf_stream_tellg(vf_stream *f);                                 /* istream::tellg */
@@ -120,7 +127,8 @@ void vf_delete_array(void *p);              /* delete[] p */
 void vf_delete_object(void *p);             /* delete p   */
 extern const void *vf_trk_ptr;  /* one nondeterministically chosen live allocation */
 extern int vf_trk_kind;         /* 1 = new[], 2 = new */
-extern size_t vf_max_alloc;     /* ghost: largest single allocation request (bytes) */
+extern size_t vf_max_alloc;
+extern _Bool vf_io_error_seen;     /* ghost: largest single allocation request (bytes) */
 
 /* ---- <cmath>/<cstdlib> */
 double vf_pow(double b, double e); /* ASSUMED exact on (256, 0..3); unconstrained elsewhere */
